@@ -280,7 +280,8 @@ impl Driver {
             Err(msg) => {
                 let (pc, ph) = pre.map(|s| (s.connection, s.handshake)).unwrap_or(("-", "-"));
                 // the public sets are still readable after the unwind: log them, the run ends here
-                let mut ev = json!({"ev": "panic", "a": s.a, "p": s.p, "m": s.m.json(), "msg": msg,
+                let a = if s.a == "idle" { "hk" } else { s.a.as_str() };
+                let mut ev = json!({"ev": "panic", "a": a, "p": s.p, "m": s.m.json(), "msg": msg,
                                     "pre_conn": pc, "pre_hs": ph, "out": []});
                 self.state_json(&mut ev);
                 log.ev(ev);
